@@ -309,6 +309,9 @@ class Alg:
             raise Unsupported('comparison of comparison results')
         a = sp.sympify(a)
         b = sp.sympify(b)
+        if kind == 'fcmp' and pred in ('uno', 'ord'):
+            # the terms of this domain are real numbers (finite arguments, exact arithmetic): never unordered
+            return (pred == 'ord', None)
         dif = a - b
         if dif.is_number or is_zero(dif):
             try:
